@@ -21,5 +21,10 @@ def main(a):
     # 3. the bounded layer can import mdtraj
     p = subprocess.run(["/venv/bin/python", "-c", "import mdtraj, numpy; print(mdtraj.__file__)"], capture_output=True, text=True)
     ok &= p.returncode == 0
+    # 4. kernel overlay: build extension modules whose C/C++ sources differ from the pinned baseline (cached under scratch/)
+    here = os.path.dirname(os.path.dirname(os.path.abspath(__file__)))
+    q = subprocess.run(["/venv/bin/python", os.path.join(here, "bcc", "overlay.py"), "/repo"], capture_output=True, text=True)
+    print("overlay:", q.stdout.strip()[:300], q.stderr.strip()[-300:])
+    ok &= q.returncode == 0
     print("setup:", "ok" if ok else "FAILED", p.stdout.strip())
     return 0 if ok else 3
